@@ -1086,7 +1086,7 @@ func funcSlice(_, v, e, s any) (r any) {
 func slice(vs []any, e, s any) any {
 	var start, end int
 	if s != nil {
-		if i, ok := toInt(s); ok {
+		if i, ok := toIntFloor(s); ok {
 			start = clampIndex(i, 0, len(vs))
 		} else {
 			return &arrayIndexNotNumberError{s}
@@ -1108,7 +1108,7 @@ func sliceString(v string, e, s any) any {
 	var start, end int
 	l := len([]rune(v))
 	if s != nil {
-		if i, ok := toInt(s); ok {
+		if i, ok := toIntFloor(s); ok {
 			start = clampIndex(i, 0, l)
 		} else {
 			return &stringIndexNotNumberError{s}
@@ -1693,7 +1693,7 @@ func updateArraySlice(v []any, m map[string]any, path []any, n any, a allocator)
 	}
 	var start, end int
 	if s != nil {
-		if i, ok := toInt(s); ok {
+		if i, ok := toIntFloor(s); ok {
 			start = clampIndex(i, 0, len(v))
 		} else {
 			return nil, &arrayIndexNotNumberError{s}
@@ -2136,11 +2136,25 @@ func toInt(x any) (int, bool) {
 	}
 }
 
+func toIntFloor(x any) (int, bool) {
+	if n, ok := x.(json.Number); ok {
+		x = parseNumber(n)
+	}
+	if f, ok := x.(float64); ok {
+		x = math.Floor(f)
+	}
+	return toInt(x)
+}
+
 func toIntCeil(x any) (int, bool) {
 	if n, ok := x.(json.Number); ok {
 		x = parseNumber(n)
 	}
 	if f, ok := x.(float64); ok {
+		if -1 < f && f < 0 {
+			// counted from the end, it rounds up to the end (not to -0)
+			return math.MaxInt, true
+		}
 		x = math.Ceil(f)
 	}
 	return toInt(x)
